@@ -19,6 +19,9 @@ TECH = "contract-based deductive verification: symbolic execution of the real fu
 CHECKS["C01"] = dict(cat="proof", tech=TECH,
    text="Contracts on the closed-form z-integrals (they are antiderivatives of ds/dz, n ds/(c dz), tan(theta) by symbolic differentiation), their piecing at z_uniform, the direct/indirect composition, the Snell invariant and direction vectors, the trapezoid grids of the numeric tracer and the launch-angle conversion, for symbolic ice parameters and endpoints; obligations are generated from /repo's current source and discharged by z3 for all inputs.",
    note=PROOF_NOTE + " 'The ray arrives' and the launch-angle clauses rest on the idealised brentq contract (A6); FTC (A3) links antiderivatives to line integrals.", ref="§5 C01")
+CHECKS["C13"] = dict(cat="proof", tech=TECH,
+   text="Contracts on vertex/direction sampling (range + constant Jacobian), particle-type thresholds, box and cylinder exit points, weights, shadow rejection/counting and ListGenerator index arithmetic, for symbolic volumes, vertices, directions and generator state; discharged by z3 from the current source.",
+   note=PROOF_NOTE + " Uniform/isotropic are stated through constant Jacobians (A3) over idealised RNG draws (A7); direction sign patterns and list lengths are bounded as listed in the evidence.", ref="§5 C13")
 NOT_YET = {}
 def main():
     props = [json.loads(l) for l in open(os.path.join(HERE, "properties.jsonl"))]
